@@ -17,6 +17,8 @@
 //! before - the first terminal disposition covering its own delivery-id arrives, and with that state.
 #[path = "c02_rx.rs"]
 mod rx;
+#[path = "c02_lsn.rs"]
+mod lsn;
 
 use crate::scen;
 use fe2o3_amqp::acceptor::{ConnectionAcceptor, LinkAcceptor, LinkEndpoint, SessionAcceptor};
@@ -1099,6 +1101,9 @@ pub fn run(ctx: &Ctx) -> Outcome {
     let c = part_c(ctx, t0 + budget, &mut out);
     let d = part_d(&mut out);
     let e = rx::part_e(ctx, &mut out);
+    let (f_cases, f_second) = lsn::part_f(&mut out);
+    out.set("f_listener_sender_cases", f_cases);
+    out.set("f_listener_sender_cases_in_mode_second", f_second);
     out.set("e_delivery_shape_sequences", e);
     out.set("late_disposition_after_link_reuse_cases", d);
     out.set("states", tot.states.max(1));
@@ -1153,6 +1158,7 @@ fn replay(p: &std::path::Path, mut out: Outcome) -> Outcome {
         }
         Some("B") => rx::replay_b(r, &mut out),
         Some("E") => rx::replay_e(r, &mut out),
+        Some("F") => lsn::replay_f(r, &mut out),
         _ => {
             println!("schedule replay: re-running the exploration with quick bounds");
             let ctx = Ctx {
